@@ -800,7 +800,8 @@ def gen(rng, tier):
     cases = []
     fixed = corpus(rng)
     for pr in fixed:
-        cases.append({'kind': 'text', 'prog': pr, 'script': script_of(pr)})
+        if pr['family'] != 'range':                        # (the text model reads literals of the default kinds only)
+            cases.append({'kind': 'text', 'prog': pr, 'script': script_of(pr)})
         cases += gen_runs(rng, pr, (4 if pr['family'] == 'big' else 4 if pr['family'] == 'range' else 8 if pr['family'] in ('sign', 'wrap') else 24) if tier == 'quick' else (12 if pr['family'] == 'big' else 8 if pr['family'] == 'range' else 30 if pr['family'] in ('sign', 'wrap') else 60))
     # hand-made boundary runs on the first corpus program (one equation, one lag)
     p0 = fixed[0]
@@ -1440,7 +1441,10 @@ def c_ccase(case, obs):
 
 
 def model_inputs_ok(case, obs):
-    """Inputs the float model can take at all (solve with a start/end outside the span raises before any engine work)."""
+    """Inputs the float model can take at all (solve with a start/end outside the span raises before any engine work; constants beyond
+    INTEGER(4) / REAL(4) are outside the model — ASSUMPTIONS — and judged by the oracle alone)."""
+    if case['prog'].get('family') == 'range' or literal_hazards(case['prog']['eqs']):
+        return False
     if case['entry'] == 'solve':
         ps = solve_positions(case, obs)
         return all(0 <= p < case['n'] for p in ps)
